@@ -87,7 +87,7 @@ CHECKS["C02"]["note"] += CERT_NOTE
 CHECKS["C02"]["technique"] += "; SMT (z3) decision of the verdict and of clause/learnt-clause entailment per enumerated universe"
 CHECKS["C04"]["text"] += " Additionally (observation of real runs, not a solver query): the certificate engine's universes are solved and rendered by the dev and release builds; a panic or a run that does not come back within 10 s is a violation."
 CHECKS["C05"]["text"] += " Additionally (evaluation of real output, not a solver query): every solution returned for the certificate engine's universes is checked for support - each selected solvable is reachable from the root or an accepted soft requirement through requirement edges whose chosen candidate is selected."
-CHECKS["C15"]["text"] += CERT + "per package, the forbid clauses the real Encoder emitted (registration order and grouping as they happen in real solves, up to 9 candidates per package) admit every single registered candidate and no two together, and every pair of candidates revealed through requirements is excluded by the clause database."
+CHECKS["C15"]["text"] += CERT + "per package, the forbid clauses the real Encoder emitted (registration order and grouping as they happen in real solves, up to 18 candidates per package) admit every single registered candidate and no two together, and every pair of candidates revealed through requirements is excluded by the clause database."
 CHECKS["C15"]["note"] += CERT_NOTE
 CHECKS["C16"]["text"] = CHECKS["C16"]["text"].replace("PARTIAL: verdict equivalence with the live provider, capture (from_provider), candidate order and the JSON round trip are not decided (see C19 for Mapping serde).", "") + CERT.replace("families plain/full/wide/hints/hard/deep/lazycon/soft/reuse", "family snapshot: no favored/locked, single version sets as root requirements") + "the universe is captured with DependencySnapshot::from_provider and solved through SnapshotProvider directly and after a serde_json round trip: both verdicts equal SAT(Spec(U)) of the LIVE data, both solutions satisfy Spec(U) and equal the live solution (preference order preserved, including union member order), and add_package_requirement returns an id outside the captured ones and leaves them resolvable. PARTIAL: universes are enumerated; only the Kani kernel is symbolic."
 CHECKS["C16"]["note"] += CERT_NOTE
